@@ -253,28 +253,36 @@ def small_case(rng):
     ixs = gen_indexers(rng, n)
     other = rng.sample([c['CAS'] for c in chems] + ['90-00-9'], rng.randint(1, min(n + 1, 4)))
     ops = []
+    cur = {j: sorted(set(y['phases'])) for j, y in enumerate(ixs) if y['kind'] == 'm'}    # phases change when an indexer gains one
+    def whole(x, key):
+        """the key addresses all chemicals of one row (single-phase ellipsis, bare phase, (phase, ...))"""
+        if x['kind'] == 'c': return key == KE
+        return key[0] == 's' or (key[0] in 'tl' and len(key[1]) == 2 and key[1][1] == KE and key[1][0] != KE)
     for _ in range(rng.randint(15, 60)):
         r = rng.random()
         i = rng.randrange(len(ixs))
         x = ixs[i]
         if r < 0.5:
-            key = gen_chem_key(rng, names, groups, malformed) if x['kind'] == 'c' else gen_mat_key(rng, x['phases'], names, groups, malformed)
-            ops.append(['get', i, key])
-        elif r < 0.85:
+            key = gen_chem_key(rng, names, groups, malformed) if x['kind'] == 'c' else gen_mat_key(rng, cur[i], names, groups, malformed)
+            ops.append(['getm' if rng.random() < 0.2 else 'get', i, key])
+        elif r < 0.83:
             if x['kind'] == 'c':
                 key = gen_chem_key(rng, names, groups, malformed)
                 ck = key
             else:
-                key = gen_mat_key(rng, x['phases'], names, groups, malformed)
+                key = gen_mat_key(rng, cur[i], names, groups, malformed)
                 ck = key[1][1] if key[0] in 'tl' and len(key[1]) == 2 else KE
             w = key_width(ck, glen)
             dt = gen_data(rng, n if w is None else w, malformed, cap=n if w is None else None)
-            if x['kind'] == 'm' and key[0] in 'tl' and len(key[1]) == 2 and key[1][0] == KE:
+            ellp = x['kind'] == 'm' and key[0] in 'tl' and len(key[1]) == 2 and key[1][0] == KE
+            if ellp:
                 # (..., IDs) goes through SparseArray column assignment (C09): scalars, or vectors of exactly the indexed length
                 if ck[0] in 'tl' and dt[0] == 'v': dt = ['v', (dt[1] + [1.0] * len(ck[1]))[:len(ck[1])]]
                 elif dt[0] != 'n': dt = ['n', float(rng.choice(VALS))]
-            ops.append(['set', i, key, dt])
-        elif r < 0.92:
+            if whole(x, key) and rng.random() < 0.5:
+                dt = ['sv', [float(rng.choice(VALS)) for _ in range(n)]]      # sparse data read from another indexer
+            ops.append(['setm' if (not ellp and rng.random() < 0.2) else 'set', i, key, dt])
+        elif r < 0.9:
             m = rng.randint(0, len(other))
             cas = rng.sample(other, m) if rng.random() < 0.8 else rng.sample(sorted(set(names + groups)), min(2, len(set(names))))
             if rng.random() < 0.5:
@@ -282,6 +290,11 @@ def small_case(rng):
             else:
                 ci = [j for j, y in enumerate(ixs) if y['kind'] == 'c']
                 ops.append(['mix', rng.choice(ci), cas, [float(rng.choice(VALS[1:])) for _ in cas]])
+        elif r < 0.95 and cur:
+            j = rng.choice(sorted(cur))
+            ph = rng.choice(['g', 'l', 's', 'L', 'S'])
+            ops.append([rng.choice(['mixp', 'mixp', 'copyp']), j, ph, [float(rng.choice(VALS)) for _ in range(n)]])
+            if ph not in cur[j] and ph.swapcase() not in cur[j]: cur[j] = sorted(cur[j] + [ph])
         else:
             ops.append(['index', gen_chem_key(rng, names, groups, True)])
     return {'chems': chems, 'cops': cops, 'ixs': ixs, 'ops': ops}
@@ -303,8 +316,20 @@ def big_case(rng, nops):
     seen = []
     ops = []
     focus = rng.choice(['m', 'm', 'c', 'both'])
+    cur = {1: sorted(set(shared)), 2: sorted(set(shared))}
+    spare = [ph for ph in ['g', 'l', 's', 'L', 'S'] if ph not in shared and ph.swapcase() not in shared]
+    expand_at = rng.randrange(nops // 3, 2 * nops // 3) if spare else -1
     while len(ops) < nops:
         r = rng.random()
+        if len(ops) == expand_at:
+            ph = rng.choice(spare)
+            ops.append([rng.choice(['mixp', 'copyp']), 2, ph, [float(rng.choice(VALS)) for _ in range(n)]])
+            cur[2] = sorted(cur[2] + [ph])
+            continue
+        if r < 0.03 and seen:
+            i, key = rng.choice(seen[-50:])
+            ops.append(['getm', i, key])
+            continue
         if r < 0.12 and seen:
             i, key = rng.choice(seen[-700:]) if rng.random() < 0.8 else rng.choice(seen)
             ops.append(['get', i, key])
@@ -328,7 +353,7 @@ def big_case(rng, nops):
             f = rng.random()
             if f < 0.2: key = ck
             else:
-                p = kS(rng.choice(shared)) if f < 0.8 else (kS(rng.choice(shared).swapcase()) if f < 0.9 else KE)
+                p = kS(rng.choice(cur[i])) if f < 0.8 else (kS(rng.choice(cur[i]).swapcase()) if f < 0.9 else KE)
                 key = kT([p, ck])
         seen.append((i, key))
         if rng.random() < 0.07:
@@ -370,7 +395,48 @@ def corpus_pell():
             'ops': [['get', 0, kT([kS('l'), KE])], ['get', 0, kT([KE, KE])], ['set', 0, kT([kS('g'), KE]), ['v', [1.0, 0.0, 2.0, 0.0]]],
                     ['set', 0, kT([kS('L'), KE]), ['n', 2.0]], ['get', 0, kT([kS('G'), KE])], ['set', 0, kT([KE, KE]), ['n', 3.0]]]}
 
-CORPUS = [corpus_trim(), corpus_overlap(), corpus_pell()]
+def corpus_expand():
+    """two multi-phase indexers of one phase set (one class-level cache); one of them gains a phase, so that its rows
+    shift, and moves on to another cache; phase-qualified keys are then read and written on both, interleaved"""
+    ks = [kS('A_'), kS('C_'), kT([kS('A_'), kS('B_')]), kT([kS('D_'), kS('A_')])]
+    ops = []
+    for k in ks:
+        for ph in ('l', 's'):
+            ops += [['get', 0, kT([kS(ph), k])], ['get', 1, kT([kS(ph), k])]]
+    ops.append(['mixp', 0, 'g', [100.0, 0.0, 300.0, 0.0]])
+    for n_, k in enumerate(ks):
+        for ph in ('l', 's'):
+            a, b = (0, 1) if n_ % 2 else (1, 0)
+            ops += [['get', a, kT([kS(ph), k])], ['get', b, kT([kS(ph), k])]]
+    ops += [['get', 0, kT([kS('g'), k])] for k in ks]
+    ops += [['set', 1, kT([kS('s'), kS('B_')]), ['n', 7.0]], ['set', 0, kT([kS('l'), kS('B_')]), ['n', 8.0]],
+            ['get', 2, kT([kS('s'), kS('B_')])], ['copyp', 1, 'L', [1.0, 2.0, 0.0, 4.0]], ['get', 1, kS('l')], ['get', 1, kS('L')],
+            ['copyp', 1, 'g', [0.5, 0.0, 0.0, 4.0]], ['get', 1, kT([kS('s'), kS('A_')])], ['get', 2, kT([kS('s'), kS('A_')])],
+            ['get', 0, kT([kS('s'), kS('A_')])], ['mixp', 2, 'S', [1.0, 1.0, 1.0, 1.0]], ['get', 2, kS('s')]]
+    rows = [[1.0, 2.0, 3.0, 0.5], [10.0, 20.0, 30.0, 0.25]]
+    return {'chems': _chems4(), 'cops': [], 'ops': ops,
+            'ixs': [{'kind': 'm', 'stream': False, 'phases': ['l', 's'], 'data': rows},
+                    {'kind': 'm', 'stream': True, 'phases': ['l', 's'], 'data': [[4.0, 5.0, 6.0, 0.0], [40.0, 50.0, 60.0, 2.0]]},
+                    {'kind': 'm', 'stream': False, 'phases': ['l', 's'], 'data': [[0.0, 1.0, 0.0, 1.0], [2.0, 0.0, 2.0, 0.0]]}]}
+
+def corpus_mass():
+    """the mass view is read first (so it exists and is memoised), then all flows / a whole phase row are overwritten
+    with sparse data read from another indexer, then both bases are read; and the same through the mass view"""
+    ids = kT([kS('A_'), kS('B_'), kS('C_'), kS('D_')])
+    ops = [['getm', 0, ids], ['set', 0, KE, ['sv', [5.0, 0.0, 7.0, 0.0]]], ['get', 0, ids], ['getm', 0, ids], ['getm', 0, kS('G1')],
+           ['setm', 0, kS('B_'), ['n', 64.0]], ['get', 0, kS('B_')], ['setm', 0, KE, ['sv', [0.0, 64.0, 0.0, 8.0]]], ['get', 0, ids],
+           ['getm', 0, ids], ['set', 0, kS('C_'), ['n', 2.0]], ['getm', 0, kS('C_')], ['setm', 0, kS('G1'), ['n', 16.0]], ['get', 0, ids],
+           ['getm', 1, kT([kS('l'), ids])], ['set', 1, kS('l'), ['sv', [5.0, 0.0, 7.0, 0.0]]], ['get', 1, kT([kS('l'), ids])],
+           ['getm', 1, kT([kS('l'), ids])], ['getm', 1, kT([kS('g'), ids])], ['getm', 1, ids], ['setm', 1, kS('g'), ['sv', [16.0, 0.0, 0.0, 4.0]]],
+           ['get', 1, kS('g')], ['setm', 1, kT([kS('l'), kS('G1')]), ['n', 32.0]], ['get', 1, kS('l')], ['getm', 1, kT([kS('l'), KE])],
+           ['set', 1, kT([kS('l'), KE]), ['sv', [1.0, 1.0, 0.0, 0.0]]], ['getm', 1, kS('L')]]
+    chems = _chems4()
+    for c, mw in zip(chems, [16.0, 32.0, 8.0, 4.0]): c['MW'] = mw
+    return {'chems': chems, 'cops': [['group', 'G1', ['C_', 'B_'], [1.0, 3.0], False]], 'ops': ops,
+            'ixs': [{'kind': 'c', 'stream': True, 'data': [1.0, 2.0, 3.0, 0.0]},
+                    {'kind': 'm', 'stream': False, 'phases': ['g', 'l'], 'data': [[4.0, 5.0, 6.0, 1.0], [1.0, 2.0, 3.0, 0.0]]}]}
+
+CORPUS = [corpus_trim(), corpus_overlap(), corpus_pell(), corpus_expand(), corpus_mass()]
 
 def gen_cases(rng, tier):
     if tier == 'quick':
@@ -484,8 +550,23 @@ def canon_index(v, key):
         return ['one', ['p', int(v)] if isinstance(v, (int, np.integer)) else ['g', [int(i) for i in v]]]
     return ['many', [['p', int(i)] if isinstance(i, (int, np.integer)) else ['g', [int(j) for j in i]] for i in v]]
 
-def pydata(d):
-    return d[1]
+def pydata(d, chems=None, mass=False):
+    """'sv' = a SparseVector read from another indexer of the same chemicals (through its mass view when the
+    write goes through a mass view), which takes the copy-the-dict branch of reset_sparse_chemical_data"""
+    if d[0] != 'sv': return d[1]
+    ix = env()['ix']
+    src = ix.ChemicalMolarFlowIndexer.blank('l', chems)
+    MW = chems.MW
+    for i, v in enumerate(d[1]):
+        if v: src.data.dct[i] = float(v) / float(MW[i]) if mass else float(v)
+    return src.by_mass()[...] if mass else src[...]
+
+def phase_source(chems, phase, vals):
+    ix = env()['ix']
+    g = ix.ChemicalMolarFlowIndexer.blank(phase, chems)
+    for i, v in enumerate(vals):
+        if v: g.data.dct[i] = float(v)
+    return g
 
 def make_other(cas):
     """a second property package whose CAS numbers are `cas` (in this order)"""
@@ -499,22 +580,30 @@ def make_other(cas):
     o = tmo.Chemicals(cs); o.compile()
     return o
 
-def run_ops(case, chems, ixs, on_op=None):
+def run_ops(case, chems, ixs, on_op=None, seen_phases=None):
     ix = env()['ix']
     n = chems.size
     obs = []
+    if seen_phases is None: seen_phases = set()
     for op in case['ops']:
         kind = op[0]
-        if kind == 'get':
+        if kind in ('get', 'getm'):
             o = ixs[op[1]]
             try:
-                ob = {'v': canon_val(o[pykey(op[2])])}
+                ob = {'v': canon_val((o.by_mass() if kind == 'getm' else o)[pykey(op[2])])}
             except Exception as e:
                 ob = {'e': err_of(e), 'msg': f'{type(e).__name__}: {e}'[:120]}
-        elif kind == 'set':
+        elif kind in ('mixp', 'copyp'):
+            o = ixs[op[1]]
+            g = phase_source(chems, op[2], op[3])
+            if kind == 'mixp': o.mix_from([o, g])
+            else: o.copy_like(g)
+            ob = {'ph': list(o._phases), 'd': dense(o, n)}
+            seen_phases.add(tuple(o._phases))
+        elif kind in ('set', 'setm'):
             o = ixs[op[1]]
             try:
-                o[pykey(op[2])] = pydata(op[3])
+                (o.by_mass() if kind == 'setm' else o)[pykey(op[2])] = pydata(op[3], chems, kind == 'setm')
                 ob = {'w': None}
             except Exception as e:
                 ob = {'w': err_of(e), 'msg': f'{type(e).__name__}: {e}'[:120]}
@@ -577,13 +666,19 @@ def run_impl(case):
                            for k, v in chems._index.items()])
     out['absent'] = sorted(set(x for x in NAME_POOL + ALIAS_POOL + GROUP_POOL + LETTERS + CAS_POOL + ['nope'] if x not in chems._index))
     out['comps'] = sorted([[k, [fr_json(frac(x)) for x in v]] for k, v in chems._group_mol_compositions.items()])
+    out['wcomps'] = sorted([[k, [fr_json(frac(x)) for x in v]] for k, v in chems._group_wt_compositions.items()])
     ixs = build_indexers(case, chems)
-    out['obs'] = run_ops(case, chems, ixs)
+    seen_phases = set(tuple(o._phases) for o, x in zip(ixs, case['ixs']) if x['kind'] == 'm')
+    out['obs'] = run_ops(case, chems, ixs, seen_phases=seen_phases)
     out['cc'] = [[key_of_py(k), canon_index(v[0], k), v[1]] for k, v in chems._index_cache.items()]
+    # every class-level cache this package ever used (an indexer that gained a phase moved on to another one)
     mcs = {}
+    caches = env()['ix'].MaterialIndexer._index_caches
+    for phs in seen_phases:
+        mcs[','.join(phs)] = [[key_of_py(k), canon_mval(k, v)] for k, v in caches.get((phs, chems), {}).items()]
     for o, x in zip(ixs, case['ixs']):
         if x['kind'] == 'm':
-            mcs[','.join(o._phases)] = [[key_of_py(k), canon_mval(k, v)] for k, v in o._index_cache.items()]
+            assert o._index_cache is caches[(tuple(o._phases), chems)], 'indexer does not use the cache registered for its phases'
     out['mc'] = sorted(mcs.items())
     return out
 
@@ -615,7 +710,7 @@ def cvec(v):
 
 def cdata(d):
     if d[0] == 'n': return f'(DNum {q(d[1])})'
-    if d[0] == 'v': return f'(DVec {qlist(d[1])})'
+    if d[0] in ('v', 'sv'): return f'(DVec {qlist(d[1])})'
     return f'(DMat {clist([qlist(r) for r in d[1]])})'
 
 def cop_term(op):
@@ -625,6 +720,10 @@ def cop_term(op):
     if k == 'overlap': return f'(OOverlap {clist(op[1], cstr)})'
     if k == 'mix': return f'(OMix {cnat(op[1])} {clist(op[2], cstr)} {qlist(op[3])})'
     if k == 'index': return f'(OIndex {ckey(op[1])})'
+    if k == 'getm': return f'(OGetMass {cnat(op[1])} {ckey(op[2])})'
+    if k == 'setm': return f'(OSetMass {cnat(op[1])} {ckey(op[2])} {cdata(op[3])})'
+    if k == 'mixp': return f'(OMixPhase {cnat(op[1])} {cstr(op[2])} {qlist(op[3])})'
+    if k == 'copyp': return f'(OCopyPhase {cnat(op[1])} {cstr(op[2])} {qlist(op[3])})'
     raise ValueError(k)
 
 def cobs(ob):
@@ -636,6 +735,7 @@ def cobs(ob):
         raise ValueError(f'unmodelled value {v}')
     if 'e' in ob: return f'(be {ob["e"]})'
     if 'i' in ob: return f'(BIdx {ccindex(ob["i"])})'
+    if 'ph' in ob: return f'(BPh {clist(ob["ph"], cstr)} {clist([cvec(r) for r in ob["d"]])})'
     return f'(bw {cerr(ob["w"])} {clist([cvec(r) for r in ob["d"]])})'
 
 def cixr(x):
@@ -652,10 +752,11 @@ def case_args(case, out):
 def coq_case(case, out):
     chems, cops = case_args(case, out)
     if out.get('compile_err'):
-        return f'(case_eqb {VARIANT} {chems} {cops} (Some {out["compile_err"]}) [] [] [] [] [] [] [] [] [])'
+        return f'(case_eqb {VARIANT} {chems} {cops} (Some {out["compile_err"]}) [] [] [] [] [] [] [] [] [] [])'
     table = clist([f'({cstr(k)}, {ctarget(t)})' for k, t in out['table']])
     absent = clist(out['absent'], cstr)
     comps = clist([f'({cstr(k)}, {cvec(v)})' for k, v in out['comps']])
+    comps += ' ' + clist([f'({cstr(k)}, {cvec(v)})' for k, v in out['wcomps']])
     ixs = clist([cixr(x) for x in case['ixs']])
     ops = clist([cop_term(o) for o in case['ops']])
     obs = clist([cobs(o) for o in out['obs']])
@@ -673,7 +774,7 @@ def coq_show(case, out):
 
 def nontrivial(case, out):
     obs = out.get('obs', [])
-    return sum(1 for o in obs if 'v' in o or ('w' in o and o['w'] is None)) >= 5
+    return sum(1 for o in obs if 'v' in o or 'ph' in o or ('w' in o and o['w'] is None)) >= 5
 
 def classify(case, out):
     ks = ['size:%d' % len(case['chems']), 'big' if case.get('big') else 'small']
@@ -684,6 +785,7 @@ def classify(case, out):
         if 'v' in ob: ks.append(f'op:{op[0]}:ok:{ob["v"][0]}')
         elif 'e' in ob: ks.append(f'op:{op[0]}:{ob["e"]}')
         elif 'i' in ob: ks.append(f'op:{op[0]}:ok')
+        elif 'ph' in ob: ks.append(f'op:{op[0]}:phases={len(ob["ph"])}')
         else: ks.append(f'op:{op[0]}:{ob["w"] or "ok"}')
     if 'cc' in out:
         ks.append('chem-cache-full' if len(out['cc']) >= 100 else 'chem-cache-partial')
@@ -763,6 +865,9 @@ def tag_of(e, chems=None):
         return 'overlap_kind'      # a tuple key cached as a single chemical: same defect, other symptom
     return type(e).__name__
 
+def ell_pair(phases, key):
+    return phases is not None and isinstance(key, (tuple, list)) and len(key) == 2 and key[0] is ...
+
 def flat(sp, n):
     if sp[0] == 'all': return list(range(n))
     if sp[0] == 'one': return list(sp[1])
@@ -778,7 +883,7 @@ def declared(case, cop_ok, impl_index):
         for nm in set(c['names']):
             if nm and sum(1 for c2 in case['chems'] if nm in c2['names']) == 1: idx[nm] = i
     mw = [c['MW'] for c in case['chems']]
-    comps = {}
+    comps = {}; wcomps = {}
     for c, ok in zip(case['cops'], cop_ok):
         if c[0] == 'alias':
             src, al = c[1], c[2]
@@ -788,12 +893,15 @@ def declared(case, cop_ok, impl_index):
             name, members, comp, wt = c[1], c[2], c[3], c[4]
             pos = [idx.get(m) for m in members]
             if any(not isinstance(q_, int) for q_ in pos):       # malformed member list: nothing to say
-                idx[name] = impl_index.get(name); comps.pop(name, None); continue
+                idx[name] = impl_index.get(name); comps.pop(name, None); wcomps.pop(name, None); continue
             x = np.ones(len(members)) if comp is None else np.array(comp, float)
-            if wt: x = x / np.array([mw[q_] for q_ in pos])
+            mwp = np.array([mw[q_] for q_ in pos])
+            xm = x / mwp if wt else x
+            xw = x if wt else x * mwp
             idx[name] = pos
-            comps[name] = x / x.sum() if len(x) else x
-    return idx, comps
+            comps[name] = xm / xm.sum() if len(x) else xm
+            wcomps[name] = xw / xw.sum() if len(x) else xw
+    return idx, comps, wcomps
 
 def probe_case(case, index, comps):
     """systematic writes on data whose entries are all non-zero: scalars 0 / 0.0 / -0.0 and a non-zero scalar through
@@ -819,14 +927,25 @@ def probe_case(case, index, comps):
                 if rest: keys.append(kT([kS(g), kS(rest[0]), kS(g2)]))
     phs = ['g', 'l']
     ixs = [{'kind': 'c', 'stream': False, 'data': list(base)},
-           {'kind': 'm', 'stream': False, 'phases': phs, 'data': [list(base), [2 * v for v in base]]}]
-    ops = []
+           {'kind': 'm', 'stream': False, 'phases': phs, 'data': [list(base), [2 * v for v in base]]},
+           {'kind': 'm', 'stream': False, 'phases': phs, 'data': [[3 * v for v in base], [4 * v for v in base]]}]
+    idk = kT([kS(x) for x in ids])
+    # the mass views exist from the start; rows are reset alternately with plain and with sparse data
+    ops = [['getm', 0, KE], ['getm', 1, kS('l')], ['getm', 2, idk]]
+    m = 0
     for k in keys:
         for val in (0, 0.0, -0.0, 5.0):
-            ops.append(['set', 0, KE, ['v', list(base)]])
+            m += 1
+            ops.append(['set', 0, KE, ['sv' if m % 2 else 'v', list(base)]])
             ops.append(['set', 0, k, ['n', val]])
-            ops.append(['set', 1, kS('l'), ['v', [2 * v for v in base]]])
+            ops.append(['set', 1, kS('l'), ['sv' if m % 2 else 'v', [2 * v for v in base]]])
             ops.append(['set', 1, kT([kS('l'), k]), ['n', val]])
+        ops += [['getm', 0, k], ['getm', 1, kT([kS('l'), k])]]
+    ops += [['setm', 0, KE, ['sv', list(base)]], ['get', 0, idk], ['setm', 1, kS('g'), ['sv', list(base)]], ['get', 1, kT([kS('g'), idk])]]
+    # two indexers of one phase set; one gains a phase, then the other
+    ops += [['get', 1, kT([kS('l'), idk])], ['get', 2, kT([kS('l'), idk])], ['mixp', 1, 's', list(base)],
+            ['set', 2, kT([kS('l'), kS(ids[0])]), ['n', 9.0]], ['set', 1, kT([kS('l'), kS(ids[0])]), ['n', 11.0]],
+            ['copyp', 2, 'S', list(base)], ['get', 1, kT([kS('s'), idk])], ['get', 2, kT([kS('s'), idk])]]
     return dict(case, ixs=ixs, ops=ops, probe=True)
 
 def oracle(case):
@@ -840,7 +959,7 @@ def oracle(case):
     for c in case['cops']:
         try: apply_cop(chems, c); cop_ok.append(True)
         except Exception: cop_ok.append(False)
-    index, comps = declared(case, cop_ok, dict(chems._index))
+    index, comps, wcomps = declared(case, cop_ok, dict(chems._index))
     msg = oracle_core(probe_case(case, index, comps))
     return None if msg is None else 'probe-' + msg
 
@@ -852,9 +971,46 @@ def oracle_core(case):
     for c in case['cops']:
         try: apply_cop(chems, c); cop_ok.append(True)
         except Exception: cop_ok.append(False)
-    index, comps = declared(case, cop_ok, dict(chems._index))
+    index, comps_mol, comps_wt = declared(case, cop_ok, dict(chems._index))
     index = {k: v for k, v in index.items() if v is not None}
     n = chems.size
+    MW = np.array([c['MW'] for c in case['chems']], float)
+
+    def rows_of(o):
+        a = np.asarray(o.data.to_array(), float)
+        return a.reshape(1, -1) if a.ndim == 1 else a
+
+    def both_bases(num, what):
+        """the mass view (memoised, possibly created long ago) and the molar data describe the same flows"""
+        for j, o in enumerate(ixs):
+            if 'mass' not in o._data_cache: continue
+            m = np.asarray(o.by_mass().data.to_array(), float)
+            if m.ndim == 1: m = m.reshape(1, -1)
+            if not close(m, rows_of(o) * MW):
+                return (f'mass-view: op {num}: after {what} the mass view of indexer {j} holds {m.tolist()} '
+                        f'but the molar data times MW are {(rows_of(o) * MW).tolist()}')
+        return None
+
+    def sweep(num, what):
+        """phase-qualified reads on EVERY multi-phase indexer, interleaved, against its own rows"""
+        ids = tuple(c['ID'] for c in case['chems'])
+        ms = [(j, o) for j, (o, x) in enumerate(zip(ixs, case['ixs'])) if x['kind'] == 'm']
+        for rnd in range(2):
+            for j, o in (ms if rnd == 0 else ms[::-1]):
+                for r, ph in enumerate(o._phases):
+                    if ph in index: continue          # a chemical, alias or group named like the phase takes precedence
+                    for key in ((ph, ids), (ph, ids[0]), (ph, ...)):
+                        try:
+                            got = o[key]
+                        except Exception as e:
+                            return f'phase-rows: op {num}: after {what}, indexer {j} (phases {o._phases}): reading {key!r} raised {type(e).__name__}: {e}'
+                        if isinstance(got, (SparseVector, SparseArray)): got = got.to_array()
+                        exp = rows_of(o)[r] if key[1] is ... or isinstance(key[1], tuple) else rows_of(o)[r][0]
+                        if not close(got, exp):
+                            return (f'phase-rows: op {num}: after {what}, indexer {j} (phases {o._phases}): {key!r} reads {np.asarray(got).tolist()} '
+                                    f'but row {r} holds {np.asarray(exp).tolist()}')
+        return None
+
     # every declared name resolves to the declared position(s), group members in the user's order
     for nm, v in index.items():
         try:
@@ -867,28 +1023,54 @@ def oracle_core(case):
     ix = env()['ix']
     for num, op in enumerate(case['ops']):
         kind = op[0]
+        mass = kind in ('getm', 'setm')
+        if mass: kind = kind[:-1]
+        comps = comps_wt if mass else comps_mol
         if kind in ('get', 'set'):
             o = ixs[op[1]]
             x = case['ixs'][op[1]]
             key = pykey(op[2])
             phases = None if x['kind'] == 'c' else list(o._phases)
-            arr = np.asarray(o.data.to_array(), float)
-            if arr.ndim == 1: arr = arr.reshape(1, -1)
+            arr = rows_of(o) * MW if mass else rows_of(o)
             expected = spec_read(index, arr, phases, key)
+            tgt = o.by_mass() if mass else o          # the view is created here at the latest
+            nm_ = 'indexer.by_mass()' if mass else 'indexer'
+        if kind in ('mixp', 'copyp'):
+            o = ixs[op[1]]
+            before = rows_of(o); old = list(o._phases); ph = op[2]; vals = np.array(op[3], float)
+            r = spec_phase(old, ph)
+            new = old if r is not None else sorted(old + [ph])
+            exp = np.zeros((len(new), n))
+            if kind == 'mixp':
+                for k_, q_ in enumerate(old): exp[new.index(q_)] = before[k_]
+            exp[new.index(ph) if r is None else r] += vals
+            what = f'indexer {op[1]} received material in phase {ph!r} ({"mix_from" if kind == "mixp" else "copy_like"})'
+            try:
+                if kind == 'mixp': o.mix_from([o, phase_source(chems, ph, op[3])])
+                else: o.copy_like(phase_source(chems, ph, op[3]))
+            except Exception as e:
+                return f'phase-rows: op {num}: {what} raised {type(e).__name__}: {e}'
+            if list(o._phases) != new or not close(rows_of(o), exp):
+                return f'phase-rows: op {num}: {what}: phases {o._phases}, rows {rows_of(o).tolist()} instead of {new}, {exp.tolist()}'
+            msg = sweep(num, what) or both_bases(num, what)
+            if msg: return msg
+            continue
         if kind == 'get':
             if expected is None:
-                try: o[key]
+                try: tgt[key]
                 except Exception: pass
                 continue
             try:
-                got = o[key]
+                got = tgt[key]
             except Exception as e:
                 return f'{tag_of(e, chems)}: op {num}: reading valid key {key!r} raised {type(e).__name__}: {e}'
             if isinstance(got, (SparseVector, SparseArray)): got = got.to_array()
             if not close(got, expected):
-                return f'read-value: op {num}: indexer[{key!r}] = {got!r} but the dense data give {expected!r}'
+                return f'read-value: op {num}: {nm_}[{key!r}] = {got!r} but the dense data{" times MW" if mass else ""} give {expected!r}'
         elif kind == 'set':
-            data = pydata(op[3])
+            data = pydata(op[3], chems, mass)
+            dkind = 'v' if op[3][0] == 'sv' else op[3][0]
+            dvals = op[3][1]
             # which writes does the property cover?  phase-qualified (or single-phase) valid key,
             # scalar or vector of the indexed width, distinct positions
             if phases is None:
@@ -905,53 +1087,55 @@ def oracle_core(case):
                     else:
                         r = spec_phase(phases, p)
                         rows = None if r is None else [r]
-            valid = sp is not None and rows is not None and op[3][0] in 'nv'
+            valid = sp is not None and rows is not None and dkind in 'nv'
+            if valid and mass and ell_pair(phases, key): valid = False      # column assignment on dictionary views: not covered
             if valid:
                 fl = flat(sp, n)
                 if len(set(fl)) != len(fl): valid = False
                 width = n if sp[0] == 'all' else (len(sp[1]) if sp[0] == 'many' or sp[2] else 1)
-                if op[3][0] == 'v' and (len(data) != width or (sp[0] == 'one' and not sp[2])): valid = False
+                if dkind == 'v' and (len(dvals) != width or (sp[0] == 'one' and not sp[2])): valid = False
                 ell = phases is not None and isinstance(key, (tuple, list)) and len(key) == 2 and key[0] is ...
-                if op[3][0] == 'v' and ell and sp[0] != 'many': valid = False   # per-row semantics of column assignment (C09)
-                if op[3][0] == 'n' and ell and sp[0] == 'many' and any(len(ps) != 1 or isinstance(index[k], list) for ps, k in zip(sp[1], ck)): valid = False
+                if dkind == 'v' and ell and sp[0] != 'many': valid = False   # per-row semantics of column assignment (C09)
+                if dkind == 'n' and ell and sp[0] == 'many' and any(len(ps) != 1 or isinstance(index[k], list) for ps, k in zip(sp[1], ck)): valid = False
                 if sp[0] != 'all' and any((isinstance(index[k], list) and k not in comps) for k in ([ck] if isinstance(ck, str) else ck)): valid = False
             try:
-                o[key] = data
+                tgt[key] = data
             except Exception as e:
                 if valid:
-                    return f'{tag_of(e, chems)}: op {num}: writing {data!r} through valid key {key!r} raised {type(e).__name__}: {e}'
+                    return f'{tag_of(e, chems)}: op {num}: writing {dvals!r} through valid key {key!r} raised {type(e).__name__}: {e}'
                 continue
             if not valid: continue
-            after = np.asarray(o.data.to_array(), float)
-            if after.ndim == 1: after = after.reshape(1, -1)
+            after = rows_of(o) * MW if mass else rows_of(o)
             # expected dense data
             exp = arr.copy()
             for r in rows:
                 if sp[0] == 'all':
-                    exp[r, :] = data if op[3][0] == 'n' else np.array(data, float)
+                    exp[r, :] = dvals if dkind == 'n' else np.array(dvals, float)
                 else:
                     names = [ck] if sp[0] == 'one' else list(ck)
                     groups_ = [sp[1]] if sp[0] == 'one' else sp[1]
                     for j, (nm, ps) in enumerate(zip(names, groups_)):
                         isg = isinstance(index[nm], list)
-                        if sp[0] == 'one' and isg and op[3][0] == 'v':
-                            for i, v in zip(ps, data): exp[r, i] = v
+                        if sp[0] == 'one' and isg and dkind == 'v':
+                            for i, v in zip(ps, dvals): exp[r, i] = v
                         else:
-                            v = data if op[3][0] == 'n' else data[j]
+                            v = dvals if dkind == 'n' else dvals[j]
                             if isg:
                                 for i, c in zip(ps, comps[nm]): exp[r, i] = v * c
                             else:
                                 exp[r, ps[0]] = v
             if not close(after, exp):
-                return f'write: op {num}: after indexer[{key!r}] = {data!r} the dense data are {after.tolist()} instead of {exp.tolist()}'
+                return f'write: op {num}: after {nm_}[{key!r}] = {dvals!r} ({"sparse vector" if op[3][0] == "sv" else "plain"}) the dense data{" times MW" if mass else ""} are {after.tolist()} instead of {exp.tolist()}'
             try:
-                back = o[key]
+                back = tgt[key]
             except Exception as e:
                 return f'{tag_of(e, chems)}: op {num}: reading back {key!r} raised {type(e).__name__}: {e}'
             if isinstance(back, (SparseVector, SparseArray)): back = back.to_array()
             e2 = spec_read(index, after, phases, key)
             if not close(back, e2):
-                return f'read-back: op {num}: indexer[{key!r}] reads {back!r} after the write, dense data give {e2!r}'
+                return f'read-back: op {num}: {nm_}[{key!r}] reads {back!r} after the write, dense data give {e2!r}'
+            msg = both_bases(num, f'{nm_}[{key!r}] = {dvals!r}')
+            if msg: return msg
         elif kind in ('overlap', 'mix'):
             cas = op[1] if kind == 'overlap' else op[2]
             other = make_other(cas)
@@ -983,7 +1167,8 @@ def oracle_core(case):
             except Exception as e:
                 if sp is not None: return f'{tag_of(e)}: op {num}: get_index({key!r}) raised {type(e).__name__}: {e}'
                 continue
-    return None
+    for o in ixs: o.by_mass()
+    return both_bases(len(case['ops']), 'the whole history') or sweep(len(case['ops']), 'the whole history')
 
 def finding_key(case, msg):
     return 'C10:' + msg.split(':')[0]
